@@ -1,23 +1,23 @@
 #!/bin/bash
-# usage: ref_run.sh Cnn [rK ...] — apply each behaviour-preserving refactoring of /tmp/refout/Cnn to a scratch worktree of /repo,
+# usage: ref_run.sh Cnn [rK ...] — apply each behaviour-preserving refactoring of ${REF_SRC:-/tmp/refout}/Cnn to a scratch worktree of /repo,
 # make sure it builds and the suite passes, and run ALL property checks against it. Any VIOLATION is a false alarm.
 cd /verif
 export GOFLAGS=-mod=mod GOPROXY=off GOSUMDB=off GOTOOLCHAIN=local; unset GOWORK
 P=$1; shift
-rs=("$@"); [ ${#rs[@]} -eq 0 ] && rs=($(ls /tmp/refout/$P 2>/dev/null))
+rs=("$@"); [ ${#rs[@]} -eq 0 ] && rs=($(ls ${REF_SRC:-/tmp/refout}/$P 2>/dev/null))
 for r in "${rs[@]}"; do
-  [ -f /tmp/refout/$P/$r/patch.diff ] || continue
+  [ -f ${REF_SRC:-/tmp/refout}/$P/$r/patch.diff ] || continue
   WT=/tmp/refrun-$P-$r
   git -C /repo worktree add -q --detach $WT HEAD || continue
-  if git -C $WT apply /tmp/refout/$P/$r/patch.diff 2>/dev/null; then
+  if git -C $WT apply ${REF_SRC:-/tmp/refout}/$P/$r/patch.diff 2>/dev/null; then
     if (cd $WT && go build ./... 2>&1 | head -3 | grep -q .); then echo "$P $r: does not build"; else
       out=$(GOFLAGS=-mod=vendor ./bin/verif-sa -prop all -repo $WT -verif /verif -no-evidence 2>&1)
       if echo "$out" | grep -q "^VIOLATION"; then
         echo "$P $r: FALSE ALARM"; echo "$out" | grep -E "violated:|undecided:" | cut -c1-330
-        mkdir -p /verif/refactorings/$P-$r; cp /tmp/refout/$P/$r/patch.diff /tmp/refout/$P/$r/meta.json /verif/refactorings/$P-$r/ 2>/dev/null
+        mkdir -p /verif/refactorings/$P-$r; cp ${REF_SRC:-/tmp/refout}/$P/$r/patch.diff ${REF_SRC:-/tmp/refout}/$P/$r/meta.json /verif/refactorings/$P-$r/ 2>/dev/null
       else
         echo "$P $r: quiet ($(echo "$out" | grep -c ' quick: ') properties checked)"
-        mkdir -p /verif/refactorings/$P-$r; cp /tmp/refout/$P/$r/patch.diff /tmp/refout/$P/$r/meta.json /verif/refactorings/$P-$r/ 2>/dev/null
+        mkdir -p /verif/refactorings/$P-$r; cp ${REF_SRC:-/tmp/refout}/$P/$r/patch.diff ${REF_SRC:-/tmp/refout}/$P/$r/meta.json /verif/refactorings/$P-$r/ 2>/dev/null
       fi
     fi
   else
